@@ -231,6 +231,63 @@ PROPS["C28"] = dict(
     level_note="Trusted: Kani/CBMC; clock and RNG replaced by arbitrary values within their documented ranges.",
 )
 
+# ------------------------------------------------------------------------------------------------
+# unit "auth": S2 mount of p2panda-auth state.rs + access.rs
+# ------------------------------------------------------------------------------------------------
+UNITS["auth"] = dict(
+    name="auth",
+    stage=[("repo",), ("crate", "harness/auth"), ("lock",), SYM, COLLECTIONS,
+           ("mount", "p2panda-auth/src/group/crdt/state.rs", "src/staged/state.rs",
+            [(r"^use std::collections::\{HashMap, HashSet\};$", "use crate::verif_models::{HashMap, HashSet};", 1), INNER_DOCS, STRIP_TESTS]),
+           ("mount", "p2panda-auth/src/access.rs", "src/staged/access.rs", [INNER_DOCS, STRIP_TESTS])],
+    repo_paths=["src/staged/"],
+    functions=[("p2panda-auth/src/group/crdt/state.rs", "state::merge", r"pub fn merge<"),
+               ("p2panda-auth/src/access.rs", "PartialOrd for Access", r"impl<C: PartialOrd> PartialOrd for Access<C>"),
+               ("p2panda-auth/src/group/crdt/state.rs", "state::create", r"pub fn create<"),
+               ("p2panda-auth/src/group/crdt/state.rs", "state::add", r"pub fn add<"),
+               ("p2panda-auth/src/group/crdt/state.rs", "state::remove", r"pub fn remove<"),
+               ("p2panda-auth/src/group/crdt/state.rs", "state::modify", r"^fn modify<"),
+               ("p2panda-auth/src/group/crdt/state.rs", "state::promote", r"pub fn promote<"),
+               ("p2panda-auth/src/group/crdt/state.rs", "state::demote", r"pub fn demote<")],
+    harnesses=[
+        dict(name="c32::commutative_without_conditions", prop="C32", timeout=600, encodes="state::merge, PartialOrd for Access (C = ())",
+             bounds="two states over 2 member ids, member_counter 1..3, access_counter 0..2, 4 levels, every HashMap iteration order"),
+        dict(name="c32::idempotent_without_conditions", prop="C32", timeout=600, encodes="state::merge", bounds="one state over 2 ids, as above"),
+        dict(name="c32::associative_without_conditions", prop="C32", timeout=600, encodes="state::merge", bounds="three states over 1 member id (members are merged independently)"),
+        dict(name="c32::commutative_with_conditions", prop="C32", timeout=600, encodes="state::merge, PartialOrd for Access (C = u8 in {0,1}, optional)",
+             bounds="two states over 2 ids, conditions None | Some(0) | Some(1)"),
+        dict(name="c32::commutative_with_conditions_consistent_order", prop="C32", timeout=600, encodes="state::merge, PartialOrd for Access",
+             bounds="as above, restricted to pairs on which Access's order is antisymmetric and total"),
+        dict(name="c32::idempotent_with_conditions", prop="C32", timeout=600, encodes="state::merge", bounds="one state over 2 ids with conditions"),
+        dict(name="c32::associative_with_conditions", prop="C32", timeout=900, encodes="state::merge", bounds="three states over 1 id with conditions"),
+        dict(name="c33::add_step", prop="C33", timeout=600, encodes="state::add", bounds="arbitrary state over 3 ids (counters 1..3 / 0..2, 4 levels), arbitrary actor/target/access"),
+        dict(name="c33::remove_step", prop="C33", timeout=600, encodes="state::remove", bounds="as add_step"),
+        dict(name="c33::promote_step", prop="C33", timeout=600, encodes="state::promote, state::modify", bounds="as add_step"),
+        dict(name="c33::demote_step", prop="C33", timeout=600, encodes="state::demote, state::modify", bounds="as add_step"),
+        dict(name="c33::create_introduces_exactly_initial_members", prop="C33", timeout=300, encodes="state::create", bounds="1 or 2 initial members, all access levels"),
+    ],
+)
+_AUTH_TB = ["Kani 0.68 / CBMC 6.11 / cadical",
+            "model: std HashMap/HashSet replaced by inline arrays (capacity 3) with unique keys and a solver-chosen iteration order per iteration (std documents the order as arbitrary)"]
+PROPS["C32"] = dict(
+    units=["auth"], trusted_base=_AUTH_TB,
+    assumptions=["<= 2 member ids per state (1 for associativity: the merge loop treats members independently)", "member_counter in 1..3, access_counter in 0..2", "conditions type u8 restricted to {0,1} (totally ordered) or the unit type"],
+    bounds="all states inside the stated domains, both instantiations (with / without access conditions), every map iteration order",
+    outside="more than two members per state; condition types that are only partially ordered",
+    level_text=("Bounded model checking of the real state::merge and Access's PartialOrd: commutativity, associativity and idempotence are decided for every pair/triple of member states "
+                "inside small counter/level/condition domains — the exhaustive small-domain quantifier of the property, including condition combinations the three unit-test examples never touch."),
+    level_note="Trusted: Kani/CBMC; HashMap contract model with symbolic iteration order; small-domain bound.",
+)
+PROPS["C33"] = dict(
+    units=["auth"], trusted_base=_AUTH_TB,
+    assumptions=["states over 3 member ids, no access conditions (C = ())", "the state the functions receive is the state at the operation's declared dependencies (rebuilt by GroupCrdt::validate with petgraph — not encoded)"],
+    bounds="one operation (add/remove/promote/demote/create) from an arbitrary state; arbitrary actor, target and access",
+    outside="GroupCrdt::validate/process (graph rebuild at the dependencies, resolver, 'rejected operations leave the replica unchanged' at replica level): petgraph + HashMap-heavy, out of CBMC's reach",
+    level_text=("Bounded model checking of the real state::{add,remove,promote,demote,create} — the functions GroupCrdt::validate uses to accept or reject an operation: accepted => author is an active "
+                "manager (or removes itself), the action is valid, only the target's entry changes, nobody becomes a member except through add/create. PARTIAL: the replica-level graph logic is outside."),
+    level_note="Trusted: Kani/CBMC; HashMap contract model. Partial claim: state-transition functions only.",
+)
+
 PROPS["C18"].update(
     level_text=("Bounded model checking of the real HybridTimestamp::increment: the solver decides the strict-increase "
                 "assertion for every 64-bit (timestamp, lamport, wall-clock) triple and for chains of two increments with "
